@@ -5,6 +5,7 @@ Property theorems only (obligations of ./check C03).
 import LfsModel.PushModel
 import LfsModel.PrePush
 import LfsModel.PushReport
+import LfsModel.Gen
 
 namespace C03
 open Push PushM
@@ -49,6 +50,37 @@ theorem update_excludes_are_remote_shas (updates : List (Nat × Nat)) :
   obtain ⟨u, hu, rfl⟩ := List.mem_map.mp he
   have := List.mem_filter.mp hu
   exact ⟨u, this.1, rfl, by simpa using this.2⟩
+
+/-- `git lfs push <remote> <ref>...` reports every named ref with its own sha as the remote side (no upstream is
+    known): NOTHING is excluded on account of the other refs named beside it, so the history that nested refs
+    share is scanned for each of them (the seventh-round seed C03 excluded it for all of them) -/
+theorem named_refs_exclude_nothing (updates : List (Nat × Nat)) (h : ∀ u ∈ updates, u.2 = u.1) :
+    updateExcludes updates = [] := by
+  unfold updateExcludes
+  rw [List.map_eq_nil_iff, List.filter_eq_nil_iff]
+  intro u hu
+  simp [h u hu]
+
+/-- every commit reachable from a pushed ref and from no excluded commit is scanned for that ref — for every
+    number of updates in one push, whatever the other updates are -/
+theorem every_update_scans_its_own_range (r : Repo) (updates : List (Nat × Nat)) (u : Nat × Nat) (_hu : u ∈ updates)
+    (c : Commit) (hc : Reach r [u.1] c) (hne : ¬ Reach r (updateExcludes updates) c) :
+    Reach r [u.1] c ∧ ∀ e ∈ updateExcludes updates, ¬ Reach r [e] c := by
+  refine ⟨hc, fun e he hr => hne ?_⟩
+  exact Push.reach_mono r (a := [e]) (fun x hx => by
+    have : x = e := by simpa using hx
+    subst this; exact Reach.tip he) hr
+
+/-! ties to commands/uploader.go as it is in /repo now -/
+/-- uploadForRefUpdates appends exactly the remote side of an update to `exclude`, and only when it differs from
+    the local side; uploadRangeOrAll hands that very list to the scanner together with the local side -/
+theorem gen_upload_exclusion :
+    Gen.uploadExcludeAppended = [[114, 101, 109, 111, 116, 101, 82, 101, 102, 83, 104, 97]] ∧   -- remoteRefSha
+    Gen.uploadExcludeConds = [[117, 112, 100, 97, 116, 101, 46, 76, 111, 99, 97, 108, 82, 101, 102, 67, 111, 109, 109, 105, 116, 105, 115, 104, 40, 41, 32, 33, 61, 32, 114, 101, 109, 111, 116, 101, 82, 101, 102, 83, 104, 97]] ∧
+      -- update.LocalRefCommitish() != remoteRefSha
+    Gen.uploadScanArgs = [[117, 112, 100, 97, 116, 101, 46, 76, 111, 99, 97, 108, 82, 101, 102, 67, 111, 109, 109, 105, 116, 105, 115, 104, 40, 41],
+      [101, 120, 99, 108, 117, 100, 101], [99, 98]] := by decide
+      -- update.LocalRefCommitish(), exclude, cb
 
 /-- a pointer is left out of the upload only if it is the empty object or already handled -/
 theorem upload_skips_only_empty_and_seen (seen : List Nat) (oid size : Nat) (h : enqueue seen oid size = false) :
